@@ -24,8 +24,7 @@ ALLOWED_THIRD_PARTY = (
     "crossbeam::crossbeam_channel::RecvTimeoutError",
     "rusty_pool::Builder::",
     "rusty_pool::ThreadPool::execute",
-    "rusty_pool::ThreadPool::shutdown_join",
-    "rusty_pool::ThreadPool::shutdown_join_timeout",
+    "rusty_pool::ThreadPool::shutdown",   # shutdown / shutdown_join / shutdown_join_timeout: methods of the store's own handle
     "rusty_pool::ThreadPool::join",
     "thiserror::",
 )
